@@ -2,30 +2,44 @@
 (* C33 - the job workers of /repo/util/worker.go: BaseJobWorker (semaphore +    *)
 (* cancel cause), NewErrCallbackJobWorker, RunJobWorker / runWorker, BatchWork.  *)
 (*                                                                                *)
-(* State of one worker: per job whether it was accepted, started, ended and with *)
-(* which error; the cancel cause of the worker's context (first one wins); the   *)
-(* failing jobs whose cancel call (base worker) / error callback (error-callback  *)
-(* worker) is still to come (a job keeps its semaphore slot until then).          *)
+(* State of one worker: per job whether it was accepted, started, whether its     *)
+(* callback returned and with which error, and the steps its goroutine still has  *)
+(* to perform after the callback returned (its "tail"); the cancel cause of the   *)
+(* worker's context (first one wins); the semaphore slots held.                   *)
 (* Errors are integers: 0 = nil, j = the error of job j, PARENT = the cause the   *)
 (* parent context was cancelled with, CANCELED = context.Canceled.                *)
 (*                                                                                *)
 (* Actions (one per step of the code):                                            *)
 (*   Accept / Refuse   NewJob: accepted only while neither Done() was called nor  *)
 (*                     the context is cancelled, and a slot is free               *)
-(*   Start, End        the job callback is entered / returns e                    *)
-(*   CancelCause       ctxCancel(err) of a failing job (first cause wins), then   *)
-(*                     the slot is released; Errf: the error callback instead     *)
-(*   ParentCancel, Done, WaitRet(e), plain Cancel (Close / Wait's deferred one)   *)
+(*   Start, Return     the job callback is entered / returns e                    *)
+(*   the END OF A JOB GOROUTINE is a sequence of separate steps, performed in the *)
+(*   order EndOrder names:                                                        *)
+(*     CancelCause     ctxCancel(err) of a failing job (first cause wins)         *)
+(*     Release         sem.Release(1)                                             *)
+(*     Errf            the error callback (error-callback worker; it runs inside  *)
+(*                     NewJobFunc, i.e. before the release in every order)        *)
+(*   "cancel-release" is what the statement needs (the slot of a failing job is   *)
+(*   not free before its error is in the context); "release-cancel" is the other  *)
+(*   order a goroutine body can have. TLC shows which orders keep                 *)
+(*   WaitNilNoFailure / SlotFreeOnlyAfterCancel / NoAcceptAfterFailure            *)
+(*   (JobWorker_mc_*.cfg: holds; JobWorker_order_rc_*.cfg: counterexamples =      *)
+(*   the windows the harness aims at, harness/internal/c33/window.go).            *)
+(*   ParentCancel, Done, plain Cancel (Close / Wait's deferred one)               *)
 (* The driver of RunJobWorker (runWorker: NewJob for i = 0..size-1, Done, Wait)   *)
-(* is transcribed at implementation level - NewJob is check-then-acquire, and an  *)
-(* acquire interrupted by the cancellation answers ctx.Err() - so that TLC        *)
-(* compares what the driver returns with the statement ("the first job error is   *)
-(* the error returned"): RunReturnsFirstError.                                    *)
+(* is transcribed at implementation level - NewJob is check-then-acquire, an      *)
+(* acquire interrupted by the cancellation answers what AcquireAnswer names       *)
+(* ("ctxerr": ctx.Err(), the pinned code; "cause": context.Cause, the repaired    *)
+(* code), Wait is acquire-everything (or be interrupted) and THEN read the cause  *)
+(* - so that TLC compares what the driver returns with the statement ("the first  *)
+(* job error is the error returned"): RunReturnsFirstError, WaitNilNoFailure.     *)
 (*                                                                                *)
 (* Properties, from the statement: an accepted job starts and ends exactly once   *)
 (* (AcceptedEnds, under fairness), Wait returns nil only after every accepted job *)
-(* ended (WaitNilAfterAll), a non-nil answer is the first error / the parent's    *)
-(* cause (RunReturnsFirstError), nothing is accepted after Done (NoAcceptAfterDone). *)
+(* ended (WaitNilAfterAll) and none of them failed (WaitNilNoFailure), a non-nil  *)
+(* answer is the first error / the parent's cause (RunReturnsFirstError), nothing *)
+(* is accepted after Done (NoAcceptAfterDone) or after a failed job gave its slot *)
+(* back (NoAcceptAfterFailure: "the first job error cancels the remaining work"). *)
 (* Binding B: JobWorkerTrace.tla validates recorded executions (incl. BatchWork). *)
 EXTENDS Integers, FiniteSets, Sequences, TLC
 
@@ -33,7 +47,9 @@ CONSTANTS NJobs,     \* jobs 1..NJobs (the driver submits them in this order)
           SemSize,   \* worker size
           Kind,      \* "base" | "errcb"
           MayFail,   \* jobs that may return their error
-          ParentMay  \* TRUE: the parent context may be cancelled
+          ParentMay, \* TRUE: the parent context may be cancelled
+          EndOrder,  \* "cancel-release" | "release-cancel": order of the steps after a failing callback returned
+          AcquireAnswer  \* "cause" | "ctxerr": what NewJob answers when its acquire is interrupted
 
 Job == 1..NJobs
 PARENT == 100
@@ -41,50 +57,83 @@ CANCELED == 101
 DONEERR == 102
 
 VARIABLES
-  jst,      \* Job -> 0 not submitted / refused, 1 accepted, 2 running, 3 ended
+  jst,      \* Job -> 0 not submitted / refused, 1 accepted, 2 running, 3 callback returned (tail pending), 4 goroutine ended
   jerr,     \* Job -> error the job returned
-  pend,     \* failing ended jobs whose cancel / error callback is still to come
+  tail,     \* Job -> steps the job's goroutine still has to perform: sequence of "cancel" | "release" | "errf"
   cause,    \* 0: context alive; else the cancel cause
   done,     \* Done() was called
   slots,    \* semaphore slots held
   errf,     \* errors handed to the error callback (sequence)
-  dpc,      \* driver: "check" | "acquire" | "wait" | "ret"
+  dpc,      \* driver: "check" | "acquire" | "wait" | "wcause" | "ret"
   dj,       \* driver: job being submitted
   ret,      \* what the driver returned
-  lateAccept  \* a job accepted after Done
-wvars == <<jst, jerr, pend, cause, done, slots, errf>>
-vars == <<jst, jerr, pend, cause, done, slots, errf, dpc, dj, ret, lateAccept>>
+  lateAccept,  \* a job was accepted after Done
+  failAccept   \* a job was accepted after a failed job had given its slot back
+wvars == <<jst, jerr, tail, cause, done, slots, errf>>
+dvars == <<dpc, dj, ret, lateAccept, failAccept>>
+vars == <<jst, jerr, tail, cause, done, slots, errf, dpc, dj, ret, lateAccept, failAccept>>
 
-Init == /\ jst = [j \in Job |-> 0] /\ jerr = [j \in Job |-> 0] /\ pend = {} /\ cause = 0
+Init == /\ jst = [j \in Job |-> 0] /\ jerr = [j \in Job |-> 0] /\ tail = [j \in Job |-> <<>>] /\ cause = 0
         /\ done = FALSE /\ slots = 0 /\ errf = <<>>
-        /\ dpc = "check" /\ dj = 1 /\ ret = -1 /\ lateAccept = FALSE
+        /\ dpc = "check" /\ dj = 1 /\ ret = -1 /\ lateAccept = FALSE /\ failAccept = FALSE
 
 Closed == done \/ cause # 0                   \* newJobCtx is done
-AllEnded == \A j \in Job : jst[j] \in {0, 3}
+Range(s) == {s[i] : i \in DOMAIN s}
+Pend == {j \in Job : jst[j] = 3}              \* callback returned, goroutine not yet ended
+HoldsSlot(j) == jst[j] \in {1, 2} \/ (jst[j] = 3 /\ "release" \in Range(tail[j]))
+AllEnded == \A j \in Job : jst[j] \in {0, 4}
+(* a failed job has given its slot back *)
+FailedAndFree == \E j \in Job : jst[j] \in {3, 4} /\ jerr[j] # 0 /\ ~HoldsSlot(j)
+
+(* the steps of a job goroutine after its callback returned e, in the order of the code *)
+EndSteps(e) == IF Kind = "errcb" THEN (IF e # 0 THEN <<"errf", "release">> ELSE <<"release">>)
+               ELSE IF e = 0 THEN <<"release">>
+               ELSE IF EndOrder = "cancel-release" THEN <<"cancel", "release">>
+               ELSE <<"release", "cancel">>
 
 (* ---- the worker ---- *)
 Accept(j) == /\ jst[j] = 0 /\ ~Closed /\ slots < SemSize
              /\ jst' = [jst EXCEPT ![j] = 1] /\ slots' = slots + 1
-             /\ UNCHANGED <<jerr, pend, cause, done, errf>>
+             /\ UNCHANGED <<jerr, tail, cause, done, errf>>
 Start(j) == /\ jst[j] = 1 /\ jst' = [jst EXCEPT ![j] = 2]
-            /\ UNCHANGED <<jerr, pend, cause, done, slots, errf>>
-End(j, e) == /\ jst[j] = 2 /\ jst' = [jst EXCEPT ![j] = 3] /\ jerr' = [jerr EXCEPT ![j] = e]
-             /\ IF e = 0 THEN slots' = slots - 1 /\ UNCHANGED pend
-                ELSE pend' = pend \cup {j} /\ UNCHANGED slots
+            /\ UNCHANGED <<jerr, tail, cause, done, slots, errf>>
+Return(j, e) == /\ jst[j] = 2 /\ jst' = [jst EXCEPT ![j] = 3] /\ jerr' = [jerr EXCEPT ![j] = e]
+                /\ tail' = [tail EXCEPT ![j] = EndSteps(e)]
+                /\ UNCHANGED <<cause, done, slots, errf>>
+(* one step of the tail of job j *)
+TailStep(j, s) == /\ jst[j] = 3 /\ Head(tail[j]) = s
+                  /\ tail' = [tail EXCEPT ![j] = Tail(tail[j])]
+                  /\ jst' = [jst EXCEPT ![j] = IF Len(tail[j]) = 1 THEN 4 ELSE 3]
+                  /\ UNCHANGED <<jerr, done>>
+CancelCause(j) == /\ TailStep(j, "cancel")
+                  /\ cause' = IF cause = 0 THEN jerr[j] ELSE cause     \* context.WithCancelCause: first wins
+                  /\ UNCHANGED <<slots, errf>>
+Release(j) == /\ TailStep(j, "release") /\ slots' = slots - 1 /\ UNCHANGED <<cause, errf>>
+Errf(j) == /\ TailStep(j, "errf") /\ errf' = Append(errf, jerr[j]) /\ UNCHANGED <<cause, slots>>
+
+(* reduced steps for trace validation (JobWorkerTrace.tla), where the tail steps are not logged: *)
+(* a succeeding job gives its slot back when its callback returns, the tail of a failing job is *)
+(* run in one step. Nothing is lost for the order cancel-release: an earlier release only       *)
+(* enables more (Accept, Wait's nil), and between cancel and release nothing is enabled that    *)
+(* is not enabled after the release as well.                                                    *)
+EndS(j, e, steps) ==
+             /\ jst[j] = 2 /\ jerr' = [jerr EXCEPT ![j] = e]
+             /\ IF e = 0 THEN jst' = [jst EXCEPT ![j] = 4] /\ slots' = slots - 1 /\ UNCHANGED tail
+                ELSE jst' = [jst EXCEPT ![j] = 3] /\ tail' = [tail EXCEPT ![j] = steps] /\ UNCHANGED slots
              /\ UNCHANGED <<cause, done, errf>>
-CancelCauseK(j) == /\ j \in pend
-                   /\ cause' = IF cause = 0 THEN jerr[j] ELSE cause     \* context.WithCancelCause: first wins
-                   /\ pend' = pend \ {j} /\ slots' = slots - 1
-                   /\ UNCHANGED <<jst, jerr, done, errf>>
-ErrfK(j) == /\ j \in pend
-            /\ errf' = Append(errf, jerr[j])
-            /\ pend' = pend \ {j} /\ slots' = slots - 1
-            /\ UNCHANGED <<jst, jerr, cause, done>>
-CancelCause(j) == Kind = "base" /\ CancelCauseK(j)
-Errf(j) == Kind = "errcb" /\ ErrfK(j)
+End(j, e) == EndS(j, e, EndSteps(e))
+RunTail(j) == /\ jst[j] = 3
+              /\ jst' = [jst EXCEPT ![j] = 4] /\ tail' = [tail EXCEPT ![j] = <<>>]
+              /\ cause' = IF "cancel" \in Range(tail[j]) /\ cause = 0 THEN jerr[j] ELSE cause
+              /\ slots' = IF "release" \in Range(tail[j]) THEN slots - 1 ELSE slots
+              /\ errf' = IF "errf" \in Range(tail[j]) THEN Append(errf, jerr[j]) ELSE errf
+              /\ UNCHANGED <<jerr, done>>
+CancelCauseK(j) == "cancel" \in Range(tail[j]) /\ RunTail(j)
+ErrfK(j) == "errf" \in Range(tail[j]) /\ RunTail(j)
+
 Cancel(c) == /\ cause' = IF cause = 0 THEN c ELSE cause
-             /\ UNCHANGED <<jst, jerr, pend, done, slots, errf>>
-DoneCall == done' = TRUE /\ UNCHANGED <<jst, jerr, pend, cause, slots, errf>>
+             /\ UNCHANGED <<jst, jerr, tail, done, slots, errf>>
+DoneCall == done' = TRUE /\ UNCHANGED <<jst, jerr, tail, cause, slots, errf>>
 (* what Wait may answer now: the cause, or nil once every slot is free *)
 WaitMay(e) == /\ Closed
               /\ \/ cause # 0 /\ e = cause
@@ -95,34 +144,57 @@ DCheck == /\ dpc = "check"
           /\ IF dj > NJobs THEN dpc' = "wait" /\ done' = TRUE /\ UNCHANGED <<ret, dj>>
              ELSE IF Closed THEN dpc' = "ret" /\ ret' = (IF cause # 0 THEN cause ELSE DONEERR) /\ UNCHANGED <<done, dj>>
              ELSE dpc' = "acquire" /\ UNCHANGED <<ret, done, dj>>
-          /\ UNCHANGED <<jst, jerr, pend, cause, slots, errf, lateAccept>>
+          /\ UNCHANGED <<jst, jerr, tail, cause, slots, errf, lateAccept, failAccept>>
 DAcquire == /\ dpc = "acquire"
-            /\ \/ /\ Closed /\ dpc' = "ret" /\ ret' = CANCELED            \* sem.Acquire answers ctx.Err()
-                  /\ UNCHANGED <<jst, slots, dj, lateAccept>>
+            /\ \/ /\ Closed /\ dpc' = "ret"                                  \* the acquire is interrupted
+                  /\ ret' = IF AcquireAnswer = "ctxerr" THEN CANCELED        \* sem.Acquire's ctx.Err()
+                            ELSE IF cause # 0 THEN cause ELSE DONEERR        \* context.Cause(newJobCtx)
+                  /\ UNCHANGED <<jst, slots, dj, lateAccept, failAccept>>
                \/ /\ ~Closed /\ slots < SemSize
                   /\ jst' = [jst EXCEPT ![dj] = 1] /\ slots' = slots + 1
-                  /\ dj' = dj + 1 /\ dpc' = "check" /\ lateAccept' = (lateAccept \/ done) /\ UNCHANGED ret
-            /\ UNCHANGED <<jerr, pend, cause, done, errf>>
-DWait == /\ dpc = "wait" /\ \E e \in {0} \cup Job \cup {PARENT} : WaitMay(e) /\ ret' = e
-         /\ dpc' = "ret"
-         /\ cause' = IF cause = 0 THEN CANCELED ELSE cause               \* deferred Cancel()
-         /\ UNCHANGED <<jst, jerr, pend, done, slots, errf, dj, lateAccept>>
-Driver == DCheck \/ DAcquire \/ DWait
-Jobs == \E j \in Job : \/ Start(j) \/ End(j, 0) \/ (j \in MayFail /\ End(j, j)) \/ CancelCause(j) \/ Errf(j)
-Next == \/ Driver
-        \/ Jobs /\ UNCHANGED <<dpc, dj, ret, lateAccept>>
-        \/ ParentMay /\ cause = 0 /\ Cancel(PARENT) /\ UNCHANGED <<dpc, dj, ret, lateAccept>>
-Spec == Init /\ [][Next]_vars /\ WF_vars(Jobs /\ UNCHANGED <<dpc, dj, ret, lateAccept>>) /\ WF_vars(Driver)
+                  /\ dj' = dj + 1 /\ dpc' = "check" /\ lateAccept' = (lateAccept \/ done)
+                  /\ failAccept' = (failAccept \/ FailedAndFree) /\ UNCHANGED ret
+            /\ UNCHANGED <<jerr, tail, cause, done, errf>>
+(* Wait: <-newJobCtx.Done(), then sem.Acquire(ctx, size): refused / interrupted by the cancellation *)
+(* (the cause is the answer) or every slot taken; only then the cause is read                       *)
+DWait == /\ dpc = "wait" /\ Closed
+         /\ \/ cause # 0 /\ ret' = cause /\ dpc' = "ret"
+            \/ cause = 0 /\ slots = 0 /\ dpc' = "wcause" /\ UNCHANGED ret
+         /\ UNCHANGED <<jst, jerr, tail, cause, done, slots, errf, dj, lateAccept, failAccept>>
+DWaitCause == /\ dpc = "wcause" /\ ret' = cause /\ dpc' = "ret"
+              /\ cause' = IF cause = 0 THEN CANCELED ELSE cause              \* deferred Cancel()
+              /\ UNCHANGED <<jst, jerr, tail, done, slots, errf, dj, lateAccept, failAccept>>
+Driver == DCheck \/ DAcquire \/ DWait \/ DWaitCause
+Jobs == \E j \in Job : \/ Start(j) \/ Return(j, 0) \/ (j \in MayFail /\ Return(j, j))
+                       \/ CancelCause(j) \/ Release(j) \/ Errf(j)
+(* the same steps as named actions of Next (coverage per action) *)
+JStart(j) == Start(j) /\ UNCHANGED dvars
+JReturnNil(j) == Return(j, 0) /\ UNCHANGED dvars
+JReturnErr(j) == j \in MayFail /\ Return(j, j) /\ UNCHANGED dvars
+JCancelCause(j) == CancelCause(j) /\ UNCHANGED dvars
+JRelease(j) == Release(j) /\ UNCHANGED dvars
+JErrf(j) == Errf(j) /\ UNCHANGED dvars
+ParentCancel == ParentMay /\ cause = 0 /\ Cancel(PARENT) /\ UNCHANGED dvars
+Next == \/ DCheck \/ DAcquire \/ DWait \/ DWaitCause
+        \/ \E j \in Job : JStart(j) \/ JReturnNil(j) \/ JReturnErr(j) \/ JCancelCause(j) \/ JRelease(j) \/ JErrf(j)
+        \/ ParentCancel
+Spec == Init /\ [][Next]_vars /\ WF_vars(Jobs /\ UNCHANGED dvars) /\ WF_vars(Driver)
 
 (* ---- properties ---- *)
-TypeOK == /\ jst \in [Job -> 0..3] /\ slots \in 0..SemSize /\ pend \subseteq Job
-          /\ slots = Cardinality({j \in Job : jst[j] \in {1, 2}}) + Cardinality(pend)
+TypeOK == /\ jst \in [Job -> 0..4] /\ slots \in 0..SemSize
+          /\ \A j \in Job : (jst[j] = 3) <=> (tail[j] # <<>>)
+          /\ slots = Cardinality({j \in Job : HoldsSlot(j)})
 FirstErr == cause
-WaitNilAfterAll == ret = 0 => AllEnded /\ \A j \in Job : jst[j] = 3
+WaitNilAfterAll == ret = 0 => \A j \in Job : jst[j] \in {3, 4} /\ ~HoldsSlot(j)
+(* the statement: Wait's nil means that no accepted job failed *)
+WaitNilNoFailure == (Kind = "base" /\ ret = 0) => \A j \in Job : jerr[j] = 0
+(* what keeps it: the slot of a failing job is not free before its error is in the context *)
+SlotFreeOnlyAfterCancel == Kind = "base" => (FailedAndFree => cause # 0)
 (* the statement: the first job error (or the parent's cause) is the error returned *)
 RunReturnsFirstError == (dpc = "ret" /\ ret > 0) => ret \in Job \cup {PARENT}
 NoAcceptAfterDone == ~lateAccept
+NoAcceptAfterFailure == Kind = "base" => ~failAccept
 ErrfOncePerFailure == Kind = "errcb" => \A j \in Job : Cardinality({i \in 1..Len(errf) : errf[i] = j}) <= 1
-AcceptedEnds == \A j \in Job : (jst[j] = 1) ~> (jst[j] = 3)
+AcceptedEnds == \A j \in Job : (jst[j] = 1) ~> (jst[j] = 4)
 DriverReturns == <>(dpc = "ret")
 =============================================================================
